@@ -775,6 +775,7 @@ func (s *Sim) teardown() {
 		if !w.isStopped() {
 			s.mu.Lock()
 			s.tr.UnstoppedWatch++
+			s.tr.UnstoppedWatchObjs = append(s.tr.UnstoppedWatchObjs, w.l.o.idx)
 			s.mu.Unlock()
 			w.Stop()
 		}
